@@ -162,7 +162,7 @@ def run(check: Check):
     check.analysed(fi)
     bad = [mu for mu in pa.mutations(fi) if mu.root in fi.params or mu.root.startswith('<global')]
     for mu in bad:
-      check.ob('R-PURE', fi, mu.construct, False, f'{mu.how}: iterating / slicing must not change the dataset ({mu.root})', node=mu.node)
+      check.ob('R-PURE', fi, mu.construct, False, f'{mu.how}: iterating / slicing must not change the dataset ({mu.root})', node=mu.node, exact=True)
     if not bad:
       check.ob('R-PURE', fi, fi.qualname, True, 'no write through self / arguments')
   call = repo.func(MOD, 'BatchPreprocessor.__call__')
